@@ -285,6 +285,48 @@ def _perturb(arrs, nonneg=False):
     return out
 
 
+COND_MAX = 1e8
+LS_REL = 1e-6            # tolerance of (c) for runs containing line-search jumps (see notes/c14.md, Corrections 6)
+_DEV_LOG = None          # set to a list by measurement scripts: (sub-check kind, n_iter, deviation / scale)
+
+
+def _cond(G):
+    """2-norm condition number of a (Hadamard-)Gram matrix, also after scaling it to unit diagonal
+    (so that the verdict does not depend on how the column scales are distributed); inf if singular"""
+    G = np.asarray(G, dtype=float)
+    if not np.all(np.isfinite(G)):
+        return np.inf
+    d = np.diag(G)
+    if np.any(d <= 0):
+        return np.inf
+    Gn = G / np.sqrt(np.outer(d, d))
+    with np.errstate(all="ignore"):
+        try:
+            return float(max(np.linalg.cond(G), np.linalg.cond(Gn)))
+        except np.linalg.LinAlgError:
+            return np.inf
+
+
+def _worst_sweep_cond(states):
+    """states[k] = factor list after k sweeps.  The normal-equation matrix the library solves for mode m in
+    sweep k is the Hadamard product of the Grams of the already updated factors (state k+1, modes < m) and of
+    the not yet updated ones (state k, modes > m): recomputed here from the sweep-boundary iterates."""
+    worst = 0.0
+    for k in range(len(states) - 1):
+        cur, nxt = states[k], states[k + 1]
+        nd = len(cur)
+        for m in range(nd):
+            G = None
+            for i in range(nd):
+                if i == m:
+                    continue
+                f = np.asarray(nxt[i] if i < m else cur[i], dtype=float)
+                g = f.T @ f
+                G = g if G is None else G * g
+            worst = max(worst, _cond(G))
+    return worst
+
+
 def o_cp_reexpress(case):
     """clause (c): weighted start vs. the same start with the weights absorbed into mode `absorb`"""
     X, w, F = _decode_cp(case)
@@ -299,6 +341,17 @@ def o_cp_reexpress(case):
     if not (np.all(np.isfinite(d2))):
         discard("reference run not finite")
     scale = max(1.0, float(np.max(np.abs(X))), float(np.max(np.abs(d2))))
+    # explicit well-posedness rule: every normal-equation matrix met along the compared sweeps (recomputed from
+    # the sweep-boundary iterates of the reference run) must have full rank and 2-norm condition <= 1e8 — with
+    # rank > a mode size the Hadamard-Gram of an order-2 problem is singular and the (NN)LS sub-problem has no
+    # unique minimiser, so two expressions of the same start may legitimately end at different minimisers
+    states = [F2]
+    for k in range(1, case["n_iter"]):
+        _, fk = _run_cp(c2, None, F2, X, n_iter=k, fixed=[])
+        states.append(fk)
+    states.append(rf2)
+    if _worst_sweep_cond(states) > COND_MAX:
+        discard("rank-deficient / ill-conditioned normal equations along the sweeps (cond > 1e8)")
     # conditioning rule: the same reference start perturbed by 1e-12 (relative, entrywise) must move the
     # iterate by <= 1e-9*scale, otherwise the sweep map amplifies rounding too much to assert 1e-8
     nonneg = CP_ALGOS[case["algo"]]["nonneg"]
@@ -316,6 +369,8 @@ def o_cp_reexpress(case):
     # ~ sqrt(1e-8) of a step); only gross disagreement is asserted there.  Uniform weights leave the ratio invariant.
     uniform = bool(np.all(w == w[0]))
     loose = case["algo"] == "nn_hals" and not uniform
+    if _DEV_LOG is not None and np.all(np.isfinite(d1)):
+        _DEV_LOG.append((case["algo"] + ("/loose" if loose else ""), case["n_iter"], float(np.max(np.abs(d1 - d2))) / scale))
     close(d1, d2, "c/reexpress", rel=1e-2 if loose else 1e-8, scale=scale)
     return {"nontrivial": True, "labels": [f"order={X.ndim}", f"w={_wsign(w)}", f"n={case['n_iter']}", f"absorb={m}",
                                            f"tol={'loose' if loose else 'tight'}"]}
@@ -589,7 +644,7 @@ def _p2_init(case, w, A, B, C, P):
     return {"tuple": (w, fac), "list": [w, fac], "wrapper": CPTensor((w, fac))}[case["form"]]
 
 
-def _p2_run(case, init, X, n_iter):
+def _p2_run(case, init, X, n_iter, raw=False):
     Xc = [s.copy() for s in X] if isinstance(X, list) else X.copy()
     if case.get("api") == "class":
         out = Parafac2(case["R"], n_iter_max=n_iter, init=init, tol=0, linesearch=case["linesearch"]).fit_transform(Xc)
@@ -610,6 +665,8 @@ def _p2_run(case, init, X, n_iter):
         assert_shape(p, (j, R), "result/projection-shape")
     if rw is not None:
         assert_shape(rw, (R,), "result/weights-shape")
+    if raw:
+        return rw, A, B, C, rp
     return ref.parafac2_slices(rw, A, B, C, rp)
 
 
@@ -643,9 +700,29 @@ def o_p2_reexpress(case):
         if sv[min(len(sv), case["R"]) - 1] <= 1e-6 * max(sv[0], 1e-300) or len(sv) < case["R"]:
             discard("initial projection step ill-posed (rank-deficient B diag(a_i) C^T X_i^T)")
     got = _p2_run(case, _p2_init(case, w, A, B, C, P), X, n)
-    ref_run = _p2_run(dict(case, form="tuple"), _p2_init(dict(case, form="tuple"), None, fac2[0], fac2[1], fac2[2], P), X, n)
+    ctup = dict(case, form="tuple", api="function")
+    ref_run = _p2_run(ctup, _p2_init(ctup, None, fac2[0], fac2[1], fac2[2], P), X, n)
     if not all(np.all(np.isfinite(s)) for s in ref_run):
         discard("reference run not finite")
+    # the same two well-posedness rules at every outer iterate of the reference run (recomputed by the harness):
+    # projection step of full rank R, and CP normal equations (Hadamard-Grams of A, B, C) with cond <= 1e8
+    for k in range(1, n + 1):
+        rwk, Ak, Bk, Ck, Pk = _p2_run(ctup, _p2_init(ctup, None, fac2[0], fac2[1], fac2[2], P), X, k, raw=True)
+        Ak, Bk, Ck = (np.asarray(v, dtype=float) for v in (Ak, Bk, Ck))
+        if not all(np.all(np.isfinite(v)) for v in (Ak, Bk, Ck)):
+            discard("reference run not finite")
+        wk = np.ones(case["R"]) if rwk is None else np.asarray(rwk, dtype=float)
+        if k < n:
+            for i, Xi in enumerate(X):
+                sv = np.linalg.svd(Bk @ np.diag(wk * Ak[i]) @ Ck.T @ np.asarray(Xi).T, compute_uv=False)
+                if len(sv) < case["R"] or sv[case["R"] - 1] <= 1e-6 * max(sv[0], 1e-300):
+                    discard("projection step ill-posed along the iterates (rank-deficient B diag(a_i) C^T X_i^T)")
+        grams = [g.T @ g for g in (Ak * wk, Bk, Ck)]
+        if max(_cond(grams[1] * grams[2]), _cond(grams[0] * grams[2]), _cond(grams[0] * grams[1])) > COND_MAX:
+            discard("rank-deficient / ill-conditioned normal equations along the iterates (cond > 1e8)")
+    g0 = [g.T @ g for g in (fac2[0], fac2[1], fac2[2])]
+    if max(_cond(g0[1] * g0[2]), _cond(g0[0] * g0[2]), _cond(g0[0] * g0[1])) > COND_MAX:
+        discard("rank-deficient / ill-conditioned normal equations along the iterates (cond > 1e8)")
     scale = max(1.0, max(float(np.max(np.abs(s))) for s in ref_run),
                 max(float(np.max(np.abs(s))) for s in (X if isinstance(X, list) else list(X))))
     # conditioning rule (see o_cp_reexpress): singular B / rank-deficient slices make the polar factor
@@ -660,8 +737,12 @@ def o_p2_reexpress(case):
     if all(np.all(np.isfinite(s)) for s in pert + got) and \
             max(float(np.max(np.abs(a - b))) for a, b in zip(pert, got)) > 1e-9 * scale:
         discard("ill-conditioned sweep (1e-12 perturbation moves the iterate by > 1e-9)")
+    rel = LS_REL if (case["linesearch"] and n >= 7) else 1e-8
+    if _DEV_LOG is not None and all(np.all(np.isfinite(s)) for s in got):
+        _DEV_LOG.append(("parafac2/ls" if rel != 1e-8 else "parafac2", n,
+                         max(float(np.max(np.abs(a - b))) for a, b in zip(got, ref_run)) / scale))
     for g, s in zip(got, ref_run):
-        close(g, s, "c/reexpress", rel=1e-8, scale=scale)
+        close(g, s, "c/reexpress", rel=rel, scale=scale)
     return {"nontrivial": True, "labels": [f"w={_wsign(w)}", f"n={n}", f"absorb={m}", f"ragged={case['ragged']}"]}
 
 
